@@ -2,6 +2,7 @@ import Skglm.Spec.Penalties
 import Skglm.Spec.Losses
 import Skglm.Model.BlockPenalties
 import Skglm.Proofs.Reductions
+import Skglm.Proofs.SlopeConst
 /-
   C14 — general components reduce to the simpler ones they generalise (kernel level: the reductions
   are equalities of the modelled kernels for *all* inputs; converged solutions then coincide because the
@@ -170,5 +171,17 @@ theorem wquadratic_integer_weight (k : Nat) (y u : ℝ) :
 
 example : (SepPen.wl1 (2:ℝ) false).prox1 1 5 1 = 3 := by
   simp [SepPen.prox1, ST]; norm_num
+
+/-- constant SLOPE sequence = L1: on a non-increasing vector (the form `SLOPE.prox_vec` passes to the
+    kernel after sorting absolute values) with all `alphas` equal to `a`, the stack-based PAVA returns
+    the soft-thresholded values `max(z_i - a, 0)`, for every length and every tie pattern. -/
+theorem slope_constant_is_l1 (z : List ℝ) (a : ℝ) (hz : z.Pairwise (fun x y => y ≤ x)) :
+    prox_SLOPE z (List.replicate z.length a) = z.map (fun zi => if zi - a < 0 then 0 else zi - a) :=
+  Proofs.slope_constant_eq_l1 z a hz
+
+/-- non-vacuity: a sorted vector with a tie -/
+example : ([3, 2, 2, 1] : List ℝ).Pairwise (fun x y => y ≤ x) := by
+  simp only [List.pairwise_cons, List.mem_cons]; norm_num
+
 
 end Skglm.C14
